@@ -104,6 +104,21 @@ Theorem C18_items_after_crash : forall wfk pairs f d cfg d' f' cfg',
   kv_ok wfk pairs (after f' d' cfg').
 Proof. exact items_crash_safe. Qed.
 
+(* ---- what each service instance presents ---- *)
+
+(* for every list of configured instances (any kinds, any number of instances sharing one
+   stored identity, any construction order) every instance presents the stored identity,
+   except an ssh-auth instance given the private-key option, which presents that key:
+   constructing or configuring one instance never changes what another presents *)
+Theorem C18_presented_identity : forall stored is,
+  presented stored is = map (presented_spec stored) is.
+Proof. exact presented_is_spec. Qed.
+
+Theorem C18_presented_stored : forall stored is n i,
+  nth_error is n = Some i -> has_opkey i = false ->
+  nth_error (presented stored is) n = Some (stored (i_kind i)).
+Proof. exact presented_stored. Qed.
+
 (* ---- the checker ---- *)
 
 (* observations that agree with the model (no mismatch) cannot trip the checks
@@ -116,6 +131,12 @@ Theorem C18_check_consistent : forall c,
 Proof. exact check_consistent. Qed.
 
 (* ---- non-vacuity ---- *)
+Example C18_presented_nonvacuous :
+  presented (fun k => [item_code (shown_item k)])
+            [mkInst KSim None; mkInst KAuth (Some [99]%N); mkInst KJail None; mkInst KAuth None; mkInst KFtp None; mkInst KFtp None]
+  = [[1]; [99]; [1]; [1]; [3]; [3]]%N.
+Proof. vm_compute. reflexivity. Qed.
+
 Definition tok0 : bytes := [100;97;117;113;118;50;106;56;100;105;49;50;50;56;100;51;114;109;116;48]%N.
 Definition ex_fresh (n : N) : fresh :=
   mkFresh (firstn 19 tok0 ++ [48 + n]%N) (fun it => [item_code it; n]%N) (fun it kb => (item_code it :: n :: kb)%N).
@@ -173,4 +194,6 @@ Print Assumptions C18_items_persisted.
 Print Assumptions C18_stored_items_kept.
 Print Assumptions C18_kv_items_crash_safe.
 Print Assumptions C18_items_after_crash.
+Print Assumptions C18_presented_identity.
+Print Assumptions C18_presented_stored.
 Print Assumptions C18_check_consistent.
